@@ -1,6 +1,6 @@
 import CalVerif.Prim.Wire
 import CalVerif.Model.Metadata
-import CalVerif.Model.Ptg
+import CalVerif.Model.MetadataFormula
 import CalVerif.Spec.MetadataEnc
 /-! Driver for C16 (workbook metadata).
 
@@ -49,24 +49,9 @@ def showRes {α : Type} (r : Res α) (f : α → String) : String :=
   | .panic _ => "panic"
   | .outOfFuel => "fuel"
 
-/-- C14's model of `parse_defined_names`, as the parameter of the metadata model -/
-def parseDn (rgce : Bytes) : Res (Option Nat × Text) :=
-  match Ptg.definedNameXls rgce with
-  | .ok (i, t) => .ok (i, t.map Char.toNat)
-  | .err e => .err e
-  | .panic e => .panic e
-  | .outOfFuel => .outOfFuel
-
-def charsOf (t : Text) : List Char := t.map Char.ofNat
-
-/-- C14's model of the xlsb `parse_formula`, as the parameter of the metadata model -/
-def parseFmla (rgce : Bytes) (ext : List Text) (names : List (Text × Text)) : Res Text :=
-  let ctx : Ptg.Ctx := { sheets := ext.map charsOf, names := names.map (charsOf ·.1), xtis := [], fmtNum := fun _ => "<num>".toList }
-  match Ptg.parseFormulaXlsb ctx rgce with
-  | .ok t => .ok (t.map Char.toNat)
-  | .err e => .err e
-  | .panic e => .panic e
-  | .outOfFuel => .outOfFuel
+/-- C14's models of the formula decoders, as the parameters of the metadata model (`Model/MetadataFormula.lean`) -/
+def parseDn : Bytes → Res (Option Nat × Text) := pdC14
+def parseFmla : Bytes → List Text → List (Text × Text) → Res Text := pfC14
 
 def parseRels (s : String) : Option (List (String × String)) :=
   match s.splitOn "=" with
